@@ -4,7 +4,7 @@ from ..gen import G
 from ..common import run_apps, app, out_of, sig
 from ..core import unhx
 
-THEOREMS = []
+THEOREMS = ['events_errors', 'error_line_exact', 'errors_in_file_order', 'message_quotes_line', 'book_fails_first', 'walk_fails_first', 'csv_database_fails_first', 'lint_lists_all']
 LEVEL = 'proof'
 RULE = ('k in 0..4 malformed lines (no blank before the value / value not a number) planted inside records of generated well-formed files '
         '(blank lines, comments, notes, CRLF) x every file-reading command x lint with and without --silent; '
